@@ -83,17 +83,19 @@ let sort_env env = List.stable_sort (fun (k1, _) (k2, _) -> compare (List.map in
 
 let launch is_model st toks =
   match toks with
-  | _ :: _api :: form :: _streams :: code :: mode :: size :: _seed :: first :: prof ->
+  | _ :: api :: form :: _streams :: code :: mode :: size :: _seed :: first :: prof ->
     let profile = (match prof with [p] -> p | _ -> "norm") in
     let code = int_of_string code and mode = int_of_string mode and size = int_of_string size in
     let first = bytes_of_hex first in
     let st = { st with env = sort_env st.env } in
     if is_model then begin
+      (* one model function per entry point of the code (start.. and open.. carry their own copies of the preparation) *)
+      let is_start = (api = "start") in
       let r = match form with
-        | "cmd" -> launch_cmdline first st.env
+        | "cmd" -> if is_start then start_cmdline first st.env else launch_cmdline first st.env
         | "list" -> launch_list first st.strs st.env
-        | "argv0" -> launch_argv first (nat_of_int (List.length st.strs + 1)) (List.map (fun s -> Some s) st.strs @ [None]) st.env
-        | _ -> launch_argv first (nat_of_int (List.length st.strs)) (List.map (fun s -> Some s) st.strs) st.env in
+        | "argv0" -> (if is_start then start_argv else launch_argv) first (nat_of_int (List.length st.strs + 1)) (List.map (fun s -> Some s) st.strs @ [None]) st.env
+        | _ -> (if is_start then start_argv else launch_argv) first (nat_of_int (List.length st.strs)) (List.map (fun s -> Some s) st.strs) st.env in
       match r with
       | Ok x -> emit (exec_str ~is_model:true x code mode size profile)
       | Oob -> emit "! oob"
